@@ -181,7 +181,15 @@ class Translator:
                 # the result of a call points into the container only for the internal helpers that hand out node or
                 # buffer pointers; what a public accessor returns is either a private copy or (newmem=false) the caller's
                 # responsibility; the arguments of the call do not matter for where its result points
-                return c in ('get_obj', 'find_obj', 'get_at', 'findobj', 'find_min', 'find_max')
+                if c in ('get_obj', 'find_obj', 'get_at', 'findobj', 'find_min', 'find_max'):
+                    return True
+                # a public accessor asked NOT to copy (its last argument, `newmem`, is the literal false): the result is the
+                # container's own buffer.  (A variable there is the caller's choice, handed through; literal true is a copy.)
+                if c and re.search(r'_(get|getstr|getobj|getat|getfirst|getlast)$', c):
+                    args = [strip(x) for x in e.get('inner', [])[1:]]
+                    if args and args[-1].get('kind') == 'IntegerLiteral' and args[-1].get('value') == '0':
+                        return True
+                return False
             return any(derives(c) for c in e.get('inner', []))
         changed = True
         while changed:
